@@ -39,12 +39,12 @@ def shape_str(shape: dict) -> str:
 
 
 def generate(chk, module: str, consts: dict, *, name="gen", invariants=("Emit",), actions=(), timeout=900, workers=4,
-             simulate=None, depth=None, tag="PROGRAM", coverage=True, dedup=True):
+             simulate=None, depth=None, tag="PROGRAM", coverage=True, dedup=True, spec="Spec"):
     """Run a generator spec (its states are programs) and return the printed items in order.
     `actions`: names that must have been taken at least once (non-vacuity)."""
     extra = "".join(f"INVARIANT {i}\n" for i in invariants)
     cfg = chk.work / f"{Path(module).stem}-{name}.cfg"
-    cfg.write_text(projlib.cfg_from_consts(consts, extra))
+    cfg.write_text(projlib.cfg_from_consts(consts, extra).replace("SPECIFICATION Spec", f"SPECIFICATION {spec}", 1))
     r = vlib.tlc(SP / module, cfg, workers=workers, timeout=timeout, seed=chk.seed, simulate=simulate, depth=depth,
                  heap="6g", coverage=coverage and not simulate)
     chk.add_tlc(f"gen-{Path(module).stem}-{name}", r)
@@ -86,3 +86,125 @@ def slim(o: dict) -> dict:
 
 def iso_literals(program: dict) -> str:
     return "\n".join(isorender.literal(d).strip("\n") for d in program["decls"])
+
+
+def judge(chk, module: str, records: list[dict], *, consts: dict | None = None, tag="judge", chunk=250, timeout=900, procs=3,
+          trace_const=True):
+    """Write records as ndjson chunks, run the predicate spec over each chunk (TLC processes in parallel),
+    return the printed BAD objects.  With trace_const the predicate spec declares CONSTANT TraceFile (so that TLC
+    reads the file once; needed for big records), otherwise it reads IOEnv.TRACE and must consume every record (POSTCONDITION AllConsumed)."""
+    from concurrent.futures import ThreadPoolExecutor
+    parts = list(vlib.chunks(records, chunk))
+
+    def one(n_part):
+        n, part = n_part
+        path = chk.work / f"{tag}-{n}.ndjson"
+        vlib.write_ndjson(path, part)
+        cfg = chk.work / f"{Path(module).stem}-{tag}-{n}.cfg"
+        c = dict(consts or {})
+        if trace_const:
+            c["TraceFile"] = str(path)
+        cfg.write_text(projlib.cfg_from_consts(c, "POSTCONDITION AllConsumed\n"))
+        r = vlib.tlc(SP / module, cfg, workers=1, timeout=timeout, dfs=True, heap="3g", env={"TRACE": str(path)},
+                     metadir=vlib.WORK / f"tlc-{chk.work.name}-{tag}-{n}")
+        return n, path, r, len(part)
+
+    bads = []
+    with ThreadPoolExecutor(max_workers=procs) as ex:
+        results = list(ex.map(one, enumerate(parts)))
+    for n, path, r, k in results:
+        chk.add_tlc(f"{tag}-{n}", r, count_states=False)
+        if r.violated:
+            raise ToolError(f"{module} did not consume all records of {path}:\n{r.out[-2000:]}")
+        for t, v in r.printed:
+            if t == "BAD":
+                bads.append(v)
+        chk.cov["traces_validated_against_impl"] += k
+        chk.cov["evaluations"] += k
+    return bads
+
+
+def _run_shard(binp, base: Path, projects: list[dict], timeout: int) -> dict:
+    """projlib.compile_all's loop for one child-process chain: a process death (abort, stack overflow) is attributed
+    to the project that was running; the remaining projects run in a new process."""
+    import subprocess
+    base.mkdir(parents=True, exist_ok=True)
+    results: dict = {}
+    lines = [json.dumps(p) for p in projects]            # serialised once (a crash re-sends only the tail)
+    ids = [json.dumps(p.get("id")) for p in projects]
+    start = 0
+    while start < len(lines):
+        inp = "\n".join(lines[start:]) + "\n"
+        try:
+            p = subprocess.run([str(binp), str(base)], input=inp, stdout=subprocess.PIPE, stderr=subprocess.PIPE, text=True, timeout=timeout)
+        except subprocess.TimeoutExpired:
+            raise ToolError("h_compile timed out")
+        running = None
+        for line in p.stdout.split("\n"):          # NOT splitlines(): U+2028 etc. inside JSON strings are not record separators
+            if not line.strip():
+                continue
+            o = json.loads(line)
+            if "begin" in o and len(o) == 1:
+                running = o["begin"]
+                continue
+            results[json.dumps(o.get("id"))] = o
+            running = None
+        if p.returncode == 0 and running is None:
+            break
+        if running is None:
+            raise ToolError(f"h_compile failed rc={p.returncode}: {p.stderr[-1500:]}")
+        results[json.dumps(running)] = {"id": running, "outcome": "abort", "rc": p.returncode,
+                                        "stderr": p.stderr[-400:].encode("ascii", "replace").decode()}
+        start = ids.index(json.dumps(running), start) + 1
+    return results
+
+
+def compile_parallel(chk, projects: list[dict], *, want=None, shards=4, timeout=2400) -> list[dict]:
+    """Run the real compiler on every project (each needs a unique "id"), in `shards` child-process chains."""
+    from concurrent.futures import ThreadPoolExecutor
+    binp = vlib.cargo_build("h_compile") / "h_compile"
+    if want is not None:
+        for p in projects:
+            p.setdefault("want", want)
+    parts = [projects[i::shards] for i in range(shards)]
+    results: dict = {}
+    with ThreadPoolExecutor(max_workers=shards) as ex:
+        for r in ex.map(lambda a: _run_shard(binp, chk.work / f"hc{a[0]}", a[1], timeout), enumerate(parts)):
+            results.update(r)
+    out = []
+    for q in projects:
+        k = json.dumps(q.get("id"))
+        if k not in results:
+            raise ToolError(f"no observation for project {k}")
+        out.append(results[k])
+    return out
+
+
+# ---- the checked-in demo projects as h_compile projects -------------------------------------------------------
+DEMOS = ["pet-demo", "github-demo", "vite-demo", "disposable-state-ajax-demo"]
+
+
+def load_demo(name: str) -> dict | None:
+    """Read demos/<name> of the repository under test (vlib.REPO) into h_compile's project format."""
+    root = vlib.REPO / "demos" / name
+    cfgp = root / "isograph.config.json"
+    if not cfgp.exists():
+        return None
+    cfg = json.loads(cfgp.read_text())
+    pr = cfg.get("project_root", "./src")
+    proj = {"schema": (root / cfg["schema"]).read_text(), "extensions": [(root / e).read_text() for e in cfg.get("schema_extensions", [])],
+            "files": [], "config": {"project_root": pr}}
+    opts = {k: v for k, v in (cfg.get("options") or {}).items() if k != "open_telemetry"}
+    if opts:
+        proj["config"]["options"] = opts
+    base = (root / pr).resolve()
+    for f in sorted(base.rglob("*")):
+        if f.is_file() and f.suffix in (".ts", ".tsx", ".js", ".jsx") and "__isograph" not in f.parts and "node_modules" not in f.parts:
+            try:
+                text = f.read_text()
+            except UnicodeDecodeError:
+                continue
+            if "iso(" not in text:
+                continue
+            proj["files"].append({"path": str(Path(pr) / f.relative_to(base)), "content": text})
+    return proj
